@@ -760,6 +760,7 @@ func runMempool(rep *mbt.Report, ti int, tr mbt.Trace) {
 	name := func(b []byte) string { return strings.TrimPrefix(string(b), "verif-mempool-tx-") }
 	committed := map[string]bool{}
 	resub := map[string]bool{}
+	forgotten := map[string]bool{} // committed before an explicit Flush ("remove all transactions from mempool and cache")
 	var held []string // FIFO content according to the replies (independent ledger)
 	model := tr.Cfg["mode"] != "oracle"
 	for si, st := range tr.Steps {
@@ -810,7 +811,7 @@ func runMempool(rep *mbt.Report, ti int, tr mbt.Trace) {
 				fail(si, label, "property", true, "mempool:reap-fifo", "Reap does not return the accepted, uncommitted transactions in arrival order", want, gl)
 			}
 			for _, x := range gl {
-				if committed[x] {
+				if committed[x] && !forgotten[x] {
 					if resub[x] {
 						fail(si, label, "property", true, "mempool:reoffer-resubmitted", "Reap offers a transaction a committed block already contained (it was received again after the commit: the dedup cache forgets committed transactions): "+x, nil, nil)
 					} else {
@@ -826,6 +827,7 @@ func runMempool(rep *mbt.Report, ti int, tr mbt.Trace) {
 				inB[mbt.Str(x)] = true
 				committed[mbt.Str(x)] = true
 				delete(resub, mbt.Str(x))
+				delete(forgotten, mbt.Str(x))
 			}
 			mem.Update(int64(si+1), txs)
 			var nh []string
@@ -838,6 +840,9 @@ func runMempool(rep *mbt.Report, ti int, tr mbt.Trace) {
 		case "Flush":
 			mem.Flush()
 			held = nil
+			for x := range committed {
+				forgotten[x] = true
+			}
 		}
 		rep.Checks++
 		if sz := mem.Size(); sz != len(held) {
